@@ -112,6 +112,13 @@ def programs(tier, seed):
     for macro, prof, gates, heavy, cheap in aprofs:
         i += 1
         ps.append(make("p%04d" % i, macro, prof, i, seed, gates=gates, heavy=heavy, cheap=cheap))
+    # a `~` in front of a wrapper-opening operator (`~X >>> .. <<<`) is a step boundary like any other: two-branch programs for each of the
+    # ten wrapper-capable operators in which the other branch logs in the other step (shared with C14's flag family)
+    from .gen_c14 import wrapper_flag_programs
+    a, _ = wrapper_flag_programs(tier, seed, 7000, prop="C03")
+    for p_ in a:
+        p_.group = "wrapper-barrier"
+    ps += a
     return ps
 
 
